@@ -839,8 +839,8 @@ Theorem placement_total : forall ec er fl children, in_domain ec er children ->
   exists o, grid_placement_run ec er fl children = Ok o.
 Proof.
   intros ec er fl children (Hec & Her & Hlen & Hch). unfold grid_placement_run.
-  destruct (estimate_covers ec er (map snd children) Hec Her) as (cc & rc & Eest & C1 & C2 & C3 & C4 & R1 & R2 & R3 & R4 & Hfits).
-  { rewrite Forall_map. exact Hch. }
+  destruct (estimate_covers ec er (estimate_children children) Hec Her) as (cc & rc & Eest & C1 & C2 & C3 & C4 & R1 & R2 & R3 & R4 & Hfits).
+  { unfold estimate_children. rewrite Forall_map. rewrite Forall_forall in *. intros x Hx. apply filter_In in Hx. apply Hch. tauto. }
   rewrite Eest. cbn [bind].
   unfold with_track_counts. rewrite (tc_len_intro rc) by (auto; lia). rewrite (tc_len_intro cc) by (auto; lia). cbn [bind].
   set (m0 := mkM (grid_new (tlen rc) (tlen cc)) cc rc).
@@ -849,9 +849,10 @@ Proof.
     apply grid_new_reg; unfold tc_nonneg, tlen in *; lia. }
   assert (Hcap0 : cap m0 0).
   { unfold cap, m0; simpl. split; [exact Hwf0|]. unfold tc_nonneg, tlen in *. lia. }
-  assert (Hin : forall x, In x (in_flow_children children) -> In (snd x) (map snd children)).
+  assert (Hin : forall x, In x (in_flow_children children) -> In (snd x) (estimate_children children)).
   { intros [i c] Hx. apply in_flow_children_In in Hx. destruct Hx as [_ Hn]. apply nth_error_In in Hn.
-    apply in_map_iff. exists (InFlow, c). auto. }
+    unfold estimate_children. apply in_map_iff. exists (InFlow, c). split; [reflexivity|].
+    apply filter_In. split; [exact Hn|reflexivity]. }
   destruct (place_grid_items_total (in_flow_children children) m0 fl) as (m & items & Epl & k & Hk & Hcapk).
   - simpl. lia.
   - simpl. lia.
